@@ -7,13 +7,17 @@ GROUP = dict(
     spec='spec.h',
     aliases=[(SET, 'Set'), (TAB, 'Tab'), ('babylon_vf::', '')],
     opaque_by_value=['babylon::ConcurrentFixedSwissTable<unsigned long, babylon_vf::Hash>'],
-    extern_re=[r'ConcurrentFixedSwissTable<.*>::(begin|end|size|bucket_count|empty)$', r'ConcurrentFixedSwissTable<.*>::Iterator<.*>::operator'],
-    roots=[SET + '::begin', SET + '::total_size', SET + '::size', SET + '::Iterator<0>::operator++'],
+    extra_structs={'std::pair<iterator, bool>': 'struct @ { struct Tab_Iterator_L_0_R first; _Bool second; };'},
+    trivial_copy=['std::pair<iterator, bool>'],
+    extern_re=[r'ConcurrentFixedSwissTable<.*>::(begin|end|size|bucket_count|empty|emplace|ConcurrentFixedSwissTable|~ConcurrentFixedSwissTable)$', r'ConcurrentFixedSwissTable<.*>::Iterator<.*>::operator'],
+    roots=[SET + '::begin', SET + '::total_size', SET + '::size', SET + '::Iterator<0>::operator++',
+           {'name': SET + '::ConcurrentTransientHashSet', 'sig': 'const babylon::ConcurrentTransientHashSet'}],
     reviewed_compiler_conditionals=['src/babylon/concurrent/transient_hash_table.hpp:#if GCC_VERSION >= 120000'],  # a diagnostic pragma only
     assumptions=['ConcurrentFixedSwissTable is abstracted to (n elements, bucket count) with an abstract element order (executable stubs)',
                  'quiescent state: every table before the last one is full, except a default-constructed placeholder head'],
     jobs=[
         dict(id='C18.iterate.bounded', harness='h_iterate_bounded', unwind=9, bounded='chain <= 3 tables, <= 2 elements per table; unwind 9'),
+        dict(id='C18.copy.bounded', harness='h_copy_bounded', unwind=9, object_bits=10, bounded='source chain <= 3 tables with abstract bucket counts 1/2/4 (every fill growth can produce); unwind 9'),
         dict(id='C18.size.bounded', harness='h_size_bounded', unwind=5, bounded='chain <= 3 tables (16/32/64 buckets), any fill of the last table; unwind 5'),
     ],
 )
